@@ -470,7 +470,14 @@ func (s *Writer) loadSnapshot(epoch uint64) (*Snapshot, error) {
 		dataReader = crcReader
 	}
 
-	_, err = snapshot.ReadFrom(dataReader)
+	var decoded int64
+	decoded, err = snapshot.ReadFrom(dataReader)
+	if err == nil && decoded != int64(data.Len()-crcWidth) {
+		// the records end before the checksum trailer begins: whatever follows
+		// them was never decoded (and may not even have been hashed)
+		err = fmt.Errorf("snapshot %d: %d bytes decoded, %d bytes precede the checksum",
+			epoch, decoded, data.Len()-crcWidth)
+	}
 	if err != nil {
 		if closer != nil {
 			_ = closer.Close()
